@@ -17,5 +17,14 @@ for ID in $CHECKS; do
   out=$(VERIF_REPO=$MUT/repo VERIF_ENGINE=$MUT/engine VERIF_OUT=$MUT/out $MUT/target/release/fpmc "$ID" quick 2>&1); rc=$?
   echo "$(basename $D) check=$ID exit=$rc violation_lines=$(echo "$out" | grep -c '^VIOLATION')"
   echo "$out" | grep -A2 -E '^VIOLATION|MACHINERY' | head -7
+  if [ "$ID" = C08 ]; then   # the rkyv clause: two feature builds of the scratch engine
+    for feat in rkyv rkyv,packed; do
+      d=$MUT/target/feat-$(echo $feat | tr , -)
+      ( cd $MUT/engine && CARGO_NET_OFFLINE=true CARGO_TARGET_DIR=$d RUSTFLAGS="--cfg fpdec_verif" cargo build --release --offline --features $feat ) >$d.build.log 2>&1 || { echo "$(basename $D) check=C08R[$feat] BUILD-FAILED"; grep -E '^error' -A8 $d.build.log | head -20; continue; }
+      out=$(VERIF_REPO=$MUT/repo VERIF_ENGINE=$MUT/engine VERIF_OUT=$MUT/out $d/release/fpmc C08R quick 2>&1); rc=$?
+      echo "$(basename $D) check=C08R[$feat] exit=$rc violation_lines=$(echo "$out" | grep -c '^VIOLATION')"
+      echo "$out" | grep -A2 -E '^VIOLATION|MACHINERY' | head -7
+    done
+  fi
 done
 git -C $MUT/repo checkout -q -f -- .
